@@ -224,6 +224,10 @@ pub fn rebreak(src: &str, rng: &mut Rng, changes: usize) -> String {
                 out.push(' ');
             } else {
                 out.push('\n');
+                // sometimes a blank line
+                if rng.chance(1, 4) {
+                    out.push('\n');
+                }
                 for _ in 0..rng.below(9) {
                     out.push(' ');
                 }
